@@ -391,3 +391,113 @@ func mayReturn(info *types.Info) func(*ast.CallExpr) bool {
 }
 
 var _ = cfg.New
+
+// ReachFrom returns the set of source functions (by *Func) reachable in the VTA call graph
+// from the named root functions (including their nested literals).
+func (p *Prog) ReachFrom(roots ...string) map[*Func]bool {
+	p.EnsureSSA()
+	want := map[string]bool{}
+	for _, r := range roots {
+		want[r] = true
+	}
+	seen := map[*ssa.Function]bool{}
+	var work []*ssa.Function
+	for fn, f := range p.ssaOf {
+		if want[f.Root().Name] {
+			if !seen[fn] {
+				seen[fn] = true
+				work = append(work, fn)
+			}
+		}
+	}
+	for len(work) > 0 {
+		fn := work[len(work)-1]
+		work = work[:len(work)-1]
+		// nested literals are reachable with their parent (they may be stored and invoked elsewhere)
+		for _, an := range fn.AnonFuncs {
+			if !seen[an] {
+				seen[an] = true
+				work = append(work, an)
+			}
+		}
+		node := p.CG.Nodes[fn]
+		if node == nil {
+			continue
+		}
+		for _, e := range node.Out {
+			callee := e.Callee.Func
+			if callee == nil || seen[callee] {
+				continue
+			}
+			// stay inside the module (dependencies cannot call back into arbitrary module code except through values VTA already resolved)
+			seen[callee] = true
+			work = append(work, callee)
+		}
+	}
+	out := map[*Func]bool{}
+	for fn := range seen {
+		if f, ok := p.ssaOf[fn]; ok {
+			out[f] = true
+		}
+	}
+	// supplement for generic code that is never instantiated in library code (no SSA bodies to traverse):
+	// static references, and interface invocations resolved by method name to methods of generic receiver types.
+	genericMethods := map[string][]*Func{}
+	for _, f := range p.All {
+		if f.Obj == nil {
+			continue
+		}
+		sig := f.Obj.Type().(*types.Signature)
+		if sig.Recv() == nil {
+			continue
+		}
+		rt := sig.Recv().Type()
+		if pt, ok := rt.(*types.Pointer); ok {
+			rt = pt.Elem()
+		}
+		if n, ok := rt.(*types.Named); ok && n.TypeParams().Len() > 0 {
+			genericMethods[f.Obj.Name()] = append(genericMethods[f.Obj.Name()], f)
+		}
+	}
+	var awork []*Func
+	for f := range out {
+		awork = append(awork, f)
+	}
+	add := func(f *Func) {
+		if f != nil && !out[f] {
+			out[f] = true
+			awork = append(awork, f)
+		}
+	}
+	for len(awork) > 0 {
+		f := awork[len(awork)-1]
+		awork = awork[:len(awork)-1]
+		for _, ch := range f.Children {
+			add(ch)
+		}
+		ast.Inspect(f.Body, func(n ast.Node) bool {
+			id, ok := n.(*ast.Ident)
+			if !ok {
+				return true
+			}
+			fo, ok := f.Info().Uses[id].(*types.Func)
+			if !ok {
+				return true
+			}
+			fo = fo.Origin()
+			if g := p.ByObj[fo]; g != nil {
+				add(g)
+				return true
+			}
+			if sig, ok := fo.Type().(*types.Signature); ok && sig.Recv() != nil {
+				if _, isIface := sig.Recv().Type().Underlying().(*types.Interface); isIface {
+					for _, g := range genericMethods[fo.Name()] {
+						add(g)
+					}
+				}
+			}
+			return true
+		})
+	}
+	return out
+}
